@@ -133,8 +133,11 @@ def parseMods (s : String) : Spec.Mods :=
 def parseACalls (s : String) : List Spec.ACall :=
   (splitOnC s "+").filterMap fun t =>
     let body := (t.drop 1).toString
-    if t.startsWith "L" then some (.loc body)
-    else if t.startsWith "F" then some (.fp body)
+    -- L local call; F `evaluate((: f :))`; G the same pointer handed to ANOTHER object that evaluates it
+    -- (call_function_pointer switches back to the owner); H / I `(: f() :)`: a functional whose body makes the
+    -- local call, evaluated here / by the other object (the functional carries the creator's index offsets)
+    if t.startsWith "L" || t.startsWith "H" || t.startsWith "I" then some (.loc body)
+    else if t.startsWith "F" || t.startsWith "G" then some (.fp body)
     else if t.startsWith "S" then
       match body.splitOn "." with
       | ["*", f] => some (.sup none f)
